@@ -62,6 +62,8 @@ out += ["", "%d runs of seeded changes against checks (a change seeded for C01 i
         "* `C12-deposit-network-from-flag` (deposit domain taken from the `--network` default when `--testnet-*` flags are used): `create cluster` was only run on named networks; the driver now also creates a custom test network.",
         "* `C16-stale-clock-late-add` (the late-add check compares with a clock value read before the `select`): the driver's quiescence ping after every op is itself a deadliner event and refreshed the stale value; new op `qadv` moves the clock without any call into the deadliner before a registration whose deadline passed meanwhile.",
         "* `C18-aggsigdb-blocked-waiters-share-clone` (readers blocked on one key when it is stored all receive the same object): the alias walker only queried after the store; new environment variant `+w` parks two readers before the first `Store` and walks their answers (the hostile-caller scribbling of the C17 driver sees it as well).",
+        "* `C08-aggregate-scratch-stale-after-error` (pooled scratch buffer of `ThresholdAggregate` not emptied on the error path): every aggregation in the driver was independent; a refused aggregation (one partial that is not a curve point) now precedes every qualified one.",
+        "* `C01-qbft-wire-single-value-unhashed` (a single attached value filed under the signed hash without re-hashing): C01's check now also runs the consensus admission stream (agreeing on a hash means storing the same object only if values are bound to their hashes).",
         ""]
 txt = "\n".join(out)
 p = '/verif/DESIGN.md'
